@@ -6,6 +6,7 @@
 //!   harness replay <case-file> <out-file>
 mod util;
 mod hist;
+mod iters;
 
 use util::*;
 
@@ -21,9 +22,11 @@ fn main() {
             let mut rng = Rng::new(seed ^ ((prop as u64) << 32));
             out.comment(&format!("property C{:02} tier {} seed {} debug {}", prop, tier, seed, DBG));
             match prop {
-                1 | 5 => hist::gen_c01(&mut out, prop, tier, &mut rng),
-                6 => hist::gen_c06(&mut out, tier, &mut rng),
+                1 => hist::gen_c01(&mut out, prop, tier, &mut rng),
+                5 => { hist::gen_c01(&mut out, prop, tier, &mut rng); hist::gen_zst(&mut out, 5, tier, &mut rng) }
+                6 => { hist::gen_c06(&mut out, tier, &mut rng); hist::gen_zst(&mut out, 6, tier, &mut rng) }
                 7 => hist::gen_c07(&mut out, tier, &mut rng),
+                8 | 9 | 10 => iters::generate(&mut out, prop, tier, &mut rng),
                 11 => hist::gen_c11_iter(&mut out, tier, &mut rng),
                 12 => hist::gen_c12_drain(&mut out, tier, &mut rng),
                 _ => panic!("no generator for property {prop}"),
@@ -41,7 +44,8 @@ fn main() {
                 let hd: Vec<u32> = parts[0].split_whitespace().map(|x| x.parse().unwrap()).collect();
                 let inp: Vec<u64> = parts[1].split_whitespace().map(|x| x.parse().unwrap()).collect();
                 match hd[1] {
-                    1 => hist::replay(&mut out, hd[0], &inp),
+                    1 | 2 => hist::replay(&mut out, hd[0], hd[1], &inp),
+                    3 => iters::replay(&mut out, hd[0], &inp),
                     f => panic!("unknown family {f}"),
                 }
             }
